@@ -67,8 +67,8 @@ RUNTIME_C05 = {
 }
 RUNTIME_C12 = {
     "unit": "runtime",
-    "subst_quick": {"RING_N": 4},
-    "subst_thorough": {"RING_N": 4},
+    "subst_quick": {"RING_N": 4, "RING_N1": 5},
+    "subst_thorough": {"RING_N": 4, "RING_N1": 5},
     "bound_note": "slot map populated with 2-3 objects (reference counts and choice of operation fully symbolic)",
     "harnesses": [
         {"name": "heap_retain_contract", "bound": True, "fn": "heap.rs heap_retain on the real slotmap"},
@@ -109,22 +109,24 @@ PROPS["C12"] = {
     "replay": "boxed",
     "replay_units": ["usersum"],
     "kani_units": [RUNTIME_C12],
-    "floor": {"obligations": 43},
+    "floor": {"obligations": 50},
     "trusted_base": [
+        "unit closures, rule X4: the VM's reference-counting instruction arms CloneHeap / BoxClone / BoxRelease / BoxAlloc / MakeHeapClosure / Closure are cut verbatim out of Machine::execute and re-headed as methods (their local frame lists become `&mut Vec` parameters); get_stack / set_stack / get_stack_range are ABSTRACTED (the word read is unconstrained, a register write touches neither heap nor closures); get_as::<HeapIdx> / to_value (transmutes) as handle_of; try_get_heap_backed_closure / try_get_direct_closure cut verbatim and verified; heap_retain as the map transformer proved in unit heap; SlotMap::get_mut model; <[T]>::to_vec specification",
         "unit usersum: model of the interned types (TypeNodeId::to_type/word_size, a `Type` enum with the five variants the walkers distinguish and `Other` for the rest; type trees are finite: axiom_rank), heap functions as callee contracts with a ghost operation log, Machine::get_as::<HeapIdx> (transmute) as handle_of, vx_find_usersum for the type_table lookup (`iter().find(.. matches! ..)`)",
         "release_usersum_recursive is verified for partial correctness only (exec_allows_no_decreases_clause): it follows handles into heap objects while freeing, termination depends on the heap being acyclic",
         "model of slotmap::SlotMap<DefaultKey, V> (finite map + ghost set of issued keys; get_mut / remove contracts) — third-party crate, validated bounded by the Kani harness slotmap_model_validation on the real slotmap",
         "vstd specifications of Vec and vec![0; n]",
         "unit closures: ASSUMED effect of Machine::drop_closure (recursive walk over Rc<RefCell<UpValue>> cells with filter_map closures capturing self: outside Verus) as an uninterpreted state transformer drop_post that keeps heap_wf; ASSUMED allocate_closure (fresh live open closure, heap untouched); heap_release as the map transformer proved in unit heap; Machine reduced to its `closures` and `heap` fields; get_as::<ClosureIdx> / to_value (transmutes) as closure_of / raw_of with closure_of(raw_of(c)) == c; std bool::then_some (eager argument); SlotMap model extended with get / insert / unsafe get_unchecked (requires a live key)",
     ],
-    "assumptions": ["unit closures, caller-side VM invariant (precondition, not proved): every frame-local heap closure wrapper is `[closure handle]` naming a live closure at the moment it is released (wrappers_ok), every frame-local plain closure is live when released (closures_live). Observation: release_heap_closure's `(!obj.data.is_empty()).then_some(.. obj.data[0] ..)` evaluates obj.data[0] eagerly, so the emptiness guard does not protect the index -- a wrapper with empty data would panic; no wrapper is ever created empty (allocate_heap_closure, proved)",
+    "assumptions": ["unit closures, arms: no reference count reaches u64::MAX (2^64 retains cannot occur); the heap is well formed on entry",
+                    "unit closures, caller-side VM invariant (precondition, not proved): every frame-local heap closure wrapper is `[closure handle]` naming a live closure at the moment it is released (wrappers_ok), every frame-local plain closure is live when released (closures_live). Observation: release_heap_closure's `(!obj.data.is_empty()).then_some(.. obj.data[0] ..)` evaluates obj.data[0] eagerly, so the emptiness guard does not protect the index -- a wrapper with empty data would panic; no wrapper is ever created empty (allocate_heap_closure, proved)",
                     "data-structure invariant heap_wf (every live object has refcount >= 1 and size == data.len()) holds on entry; it is established by HeapObject::{new,with_data} and preserved by all three operations (proved)",
                     "heap_retain: refcount < u64::MAX (2^64 retains of one object cannot occur)"],
     "not_covered": [
         "whether the compiler emits balanced Clone/Release/Close (insert_*_recursively in mirgen.rs); drop_closure itself and close_upvalues_by_idx (Rc<RefCell<UpValue>> cells, filter_map closures capturing self: assumed transformer in unit closures)",
         "boundedness of live closures/objects over time: a whole-history property of generated programs",
     ],
-    "explanation": "C12: (closures) at scope exit release_heap_closures releases every recorded wrapper exactly once, in order, dropping the wrapped closure exactly when it has not escaped (rel_all over rel_hc, relative to the assumed drop_closure transformer); release_open_closures drops exactly the still-open closures; allocate_heap_closure yields a fresh one-reference wrapper `[handle]` naming a fresh live open closure; get_closure's unchecked access is safe under key liveness. (usersum) the two type-directed walkers agree on WHERE the heap handles of a value are: `slots(ty, data)` is the layout function (boxed / type-alias word, tag-selected variant payload, tuple and record fields at prefix-sum offsets); clone_usersum_recursive retains exactly slots(ty,data), once each, in order; release_usersum_recursive releases every handle of slots(ty,data) (log monotone); heap-object clause: heap_retain / heap_release / heap_release_closure proved against the abstract map view (exact effect, frame, no arithmetic underflow, last release removes the object and the handle no longer resolves); balance lemma over the contracts (ghost history); the same contracts checked bit-precisely on the real slotmap by Kani with a bounded population.",
+    "explanation": "C12: (VM instruction arms, cut from Machine::execute) CloneHeap takes one more reference on a heap closure wrapper TOGETHER with one on the closure it wraps (or one on a direct closure handle; nothing for any other word); BoxClone / BoxRelease move exactly one reference of exactly the named boxed object (retained_map / released_map; lemma_box_clone_release: a clone followed by a release restores the heap); BoxAlloc creates one fresh object with one reference and the requested number of words and touches nothing else; MakeHeapClosure / Closure record the fresh wrapper / open closure in the frame's release lists exactly once -- the lists release_heap_closures / release_open_closures walk at scope exit; (closures) at scope exit release_heap_closures releases every recorded wrapper exactly once, in order, dropping the wrapped closure exactly when it has not escaped (rel_all over rel_hc, relative to the assumed drop_closure transformer); release_open_closures drops exactly the still-open closures; allocate_heap_closure yields a fresh one-reference wrapper `[handle]` naming a fresh live open closure; get_closure's unchecked access is safe under key liveness. (usersum) the two type-directed walkers agree on WHERE the heap handles of a value are: `slots(ty, data)` is the layout function (boxed / type-alias word, tag-selected variant payload, tuple and record fields at prefix-sum offsets); clone_usersum_recursive retains exactly slots(ty,data), once each, in order; release_usersum_recursive releases every handle of slots(ty,data) (log monotone); heap-object clause: heap_retain / heap_release / heap_release_closure proved against the abstract map view (exact effect, frame, no arithmetic underflow, last release removes the object and the handle no longer resolves); balance lemma over the contracts (ghost history); the same contracts checked bit-precisely on the real slotmap by Kani with a bounded population.",
     "samples": [
         {"obligation": "heap_release::ensures", "clause": "rc==1 ==> storage' == storage.remove(idx) && !storage'.contains_key(idx)"},
         {"obligation": "lemma_balance", "clause": "run(Some(n), ops) == Some(n + retains(ops) - releases(ops)) while every prefix releases fewer than exist"},
